@@ -239,20 +239,45 @@ hyperslab write of the contiguous data, restore of the old extent when the write
 theorem C01_source_append (A : DArr) (d : Arr) (axis : Int) :
     Nix.Gen.DataSet.dsAppend A d axis = appendS A d axis := dsAppend_eq A d axis
 
-/-- `DataSet.__setitem__`, `write_direct`, `_write_data`, `H5DataSet.write_data` as written: the whole dataset
-iff the index is `None` (not: iff it is falsy), otherwise exactly the indexed region -/
+/-- `DataSet.__setitem__`, `write_direct`, `_write_data`, `H5DataSet.write_data` as written: data without
+elements for a selection with elements is refused (`/repo` 61e9077); otherwise the whole dataset iff the index
+is `None` (not: iff it is falsy), else exactly the indexed region -/
 theorem C01_source_write (A : DArr) (d : Arr) (ix : IndexArg) :
     Nix.Gen.DataSet.dsSetItem A ix d = writeData A d ix ∧
     Nix.Gen.DataSet.dsWriteDirect A d = writeData A d .none ∧
-    writeData A d .none = h5SetItem A fullSlice d ∧
-    (ix.isNone = false → writeData A d ix = h5SetItem A ix d) ∧
+    (∀ B, writeData A d ix = .ok B → h5SetItem A ix.orFull d = .ok B) ∧
+    ((arrIsEmpty d && optTruthy (h5SelectedCount A ix)) = false → writeData A d ix = h5SetItem A ix.orFull d) ∧
+    ((arrIsEmpty d && optTruthy (h5SelectedCount A ix)) = true → writeData A d ix = .error (.err .valueError)) ∧
     Nix.Gen.DataSet.h5WriteDataNoneBranch = "data = np.full(self.shape, np.nan)[slc]" := by
-  refine ⟨dsSetItem_eq A ix d, dsWriteDirect_eq A d, rfl, ?_, rfl⟩
-  intro h
-  cases ix with
-  | none => simp [IndexArg.isNone] at h
-  | one i => rfl
-  | tuple l => rfl
+  refine ⟨dsSetItem_eq A ix d, dsWriteDirect_eq A d, fun B h => writeData_ok h, ?_, ?_, rfl⟩
+  · intro hg
+    unfold writeData
+    rw [hg]
+    cases ix <;> rfl
+  · intro hg
+    unfold writeData
+    rw [hg]
+    rfl
+
+/-- the methods of the read and creation paths that the model represents by hand (`__array__`, `read_direct`,
+`__iter__`, the dtype getters, `H5DataSet.__init__` with `maxshape=(None,)*rank`, `chunks=True` and the
+variable-length string type, `_is_empty`, `_selected_count`, `DataArray.create_new`) are what the model was
+written against -/
+theorem C01_source_pinned : Nix.Gen.DataSet.pinned =
+  [
+    ("DataSet.__array__", "(self): return self._read_data()[:]"),
+    ("DataSet.__iter__", "(self): for idx in range(self.len()):\n    yield self[idx]"),
+    ("DataSet.__len__", "(self): return self.len()"),
+    ("DataSet.read_direct", "(self, data): data[:] = self._read_data()"),
+    ("DataSet.dtype", "(self): return np.dtype(self._get_dtype())"),
+    ("DataSet.data_type", "(self): return self._get_dtype()"),
+    ("DataSet._get_dtype", "(self): dataset = self._h5group.get_dataset('data'); return dataset.dtype"),
+    ("H5DataSet.__init__", "(self, parent, name, dtype, shape, compression): self._parent = parent; self.name = name; if dtype is None or shape is None:\n    self.dataset = self._parent[name]\nelse:\n    maxshape = (None,) * len(shape)\n    if dtype == DataType.String:\n        dtype = util.vlen_str_dtype\n    comprargs = dict()\n    if compression:\n        comprargs = {'compression': 'gzip', 'compression_opts': 6}\n    self.dataset = self._parent.require_dataset(name, shape=shape, dtype=dtype, chunks=True, maxshape=maxshape, **comprargs); self.h5obj = self.dataset"),
+    ("H5DataSet.dtype", "(self): dtype = self.dataset.dtype; if dtype == util.vlen_str_dtype:\n    return DataType.String; return dtype"),
+    ("H5DataSet._is_empty", "(data): if isinstance(data, np.ndarray):\n    return data.size == 0; try:\n    return np.size(data) == 0\nexcept Exception:\n    return False"),
+    ("H5DataSet._selected_count", "(self, slc): probe = np.broadcast_to(np.zeros((), dtype=bool), self.dataset.shape); try:\n    return probe[slice(None) if slc is None else slc].size\nexcept Exception:\n    return None"),
+    ("DataArray.create_new", "(cls, nixfile, nixparent, h5parent, name, type_, data_type, shape, compression): newentity = super(DataArray, cls).create_new(nixfile, nixparent, h5parent, name, type_); datacompr = False; if compression == Compression.DeflateNormal:\n    datacompr = True; newentity._h5group.create_dataset('data', shape, data_type, datacompr); return newentity"),
+    ("DataArray.dtype", "(self): return self._h5group.group['data'].dtype")] := rfl
 
 /-- `DataSet.__getitem__` → `DataArray._read_data` → `DataSet._read_data` → `H5DataSet.read_data` as written:
 `None` reads everything, h5py's ValueError / TypeError become IndexError, a 0-d result (and only that) comes
